@@ -30,8 +30,10 @@ RULE = ('tables from tables.rand_spec (1..5 x 1..5, layout recipes, all id alpha
         'commas/quotes/brackets) written by to_hdf5 / to_json; for each axis EVERY non-empty subset when the axis has <= 4 ids, '
         '8 random subsets beyond, ids handed over in shuffled order; each subset through from_hdf5 default, '
         'subset_with_metadata=False, _subset_table on the HDF5 path, parse_table(ids=) on the JSON text and _subset_table on the '
-        'JSON text as written, json.dumps default, indent=2 and separators=(",",":"); plus requests naming an unknown id and one '
-        'whole read per file; non-trivial = axis with >= 2 ids and a proper subset, or an unknown-id request; distinct by case hash')
+        'JSON text as written, json.dumps default, indent=2 and separators=(",",":"); plus requests naming an unknown id, one '
+        'whole read per file, and a stream of tables with 9..12 ids on one axis (kept indices >= 8, two-digit indices) with small subsets; '
+        'tables whose row/column strings trigger the known findings F34/F35 reach the JSON slicer only as tagged witness cases; '
+        'non-trivial = axis with >= 2 ids and a proper subset, or an unknown-id request; distinct by case hash')
 TRUSTED = ['hand-written models coq/Model/Subset.v (array level) and coq/Model/Slicer.v (text level) tied to biom/table.py, '
            'biom/parse.py and biom/cli/table_subsetter.py by this correspondence run',
            'h5py / numpy / scipy return the stored arrays and build csr/csc matrices as documented',
@@ -266,6 +268,9 @@ def oracle(c, obs):
             for hk in HEADER_KEYS:
                 if din.get(hk) != dout.get(hk):
                     fails.append('C14 subset-table header: %s changed %r from %r to %r' % (what, hk, din.get(hk), dout.get(hk)))
+            if dout.get('shape') != [len(ref['oids']), len(ref['sids'])]:
+                fails.append('C14 subset-table shape: %s wrote shape %r for %d x %d ids'
+                             % (what, dout.get('shape'), len(ref['oids']), len(ref['sids'])))
         except ValueError as e:   # pragma: no cover (parse_table succeeded)
             fails.append('C14 subset-table output is not JSON: %s' % e)
         if not _same(got, ref):
@@ -331,6 +336,8 @@ def cases_for(rng, spec, gen_by, tier, readers=None):
 
 
 def gen(rng, tier):
+    for c in wide_cases(rng, tier):
+        yield c
     n = 60 if tier == 'quick' else 600
     for i in range(n):
         big = rng.random() < 0.35
@@ -353,6 +360,29 @@ def gen(rng, tier):
             continue
         for c in cases_for(rng, spec, gen_by, tier):
             yield c
+
+
+def wide_cases(rng, tier):
+    """axes with 9..12 ids: kept indices >= 8 (python iterates {8, 1} as 8, 1) and two-digit indices
+    ('10' < '9' as text); small subsets, the slicer on all serialisations, the HDF5 readers once"""
+    for i in range(4 if tier == 'quick' else 40):
+        wide_obs = i % 2 == 0
+        spec = T.rand_spec(rng, min_r=9 if wide_obs else 1, max_r=12 if wide_obs else 3,
+                           min_c=1 if wide_obs else 9, max_c=3 if wide_obs else 12,
+                           density=rng.choice([0.4, 0.8]), alphabet='short', md=rng.choice(['none', 'group']))
+        axis = 'observation' if wide_obs else 'sample'
+        ids = spec['oids'] if wide_obs else spec['sids']
+        base = {'spec': spec, 'gen': 'g', 'stream': 'wide'}
+        yield dict(base, kind='h5all')
+        subs = [[ids[-1], ids[1]], [ids[8], ids[0], ids[-1]], list(ids)]
+        for _ in range(6):
+            subs.append(rng.sample(ids, rng.randint(2, 4)))
+        subs.append([x for x in ids if rng.random() < 0.6] or [ids[0]])
+        for sub in subs:
+            for ser in SERS:
+                yield dict(base, kind='cmd_json', axis=axis, ids=list(sub), ser=ser)
+            for k in ('h5', 'h5nomd', 'json'):
+                yield dict(base, kind=k, axis=axis, ids=list(sub))
 
 
 def nontrivial(c):
